@@ -13,7 +13,9 @@
   * wire lemmas — `segment_wire` (one `get_segment`), `window_segments`
     (`fill_window`: consecutive indices from the window start, actual window
     in every frame, at most `window` frames: `window_bound`), lifted to every
-    `send` output of `step` by `wire_step_A` / `wire_step_B`;
+    `send` output of `step` by `window_step` / `window_run` (jointly with the
+    state the step leaves behind: the frame lies in the window of its own
+    transaction) and, for the tracked exchange, `wire_step_A` / `wire_step_B`;
   * `client_append_in_order`, `server_append_in_order`,
     `duplicates_never_extend` — a segment frame is appended iff its sequence
     number is `(last+1) % 256`, otherwise buffer/state unchanged + exactly one
@@ -61,6 +63,8 @@
     single-fault sweep of harness/c05_impl.py.
 -/
 import BacVerif.Lemmas.TsmC05A
+import BacVerif.Lemmas.TsmC05WinStep
+import BacVerif.Props.C11
 import BacVerif.Props.C12
 namespace BacVerif.C05
 open BacVerif.Tsm
@@ -132,6 +136,43 @@ theorem window_segments {cfg : Cfg} {k : Key} {b : Body} {start w : Nat} (hw : b
 
 theorem window_bound {cfg : Cfg} (k : Key) (b : Body) (start : Nat) {w : Nat} (hw : b.window = some w) :
     (fillWindow cfg k b start).sent.length ≤ w := BacVerif.C12.window_in_flight k b start hw
+
+/-- **window_step (the window clause of the property, for every step).**  In
+    any state satisfying the access point's invariant `Inv` (C11: every
+    reachable state), for ANY event — arbitrary frame from arbitrary peer,
+    timer, application call (a ComplexAck handed over unsegmented, `EvResp`) —
+    every segment frame `f` the step emits toward `q` belongs to a transaction
+    that is listed AFTER the step under (q, f.invokeId), is segment `idx` of
+    that transaction's context (sequence number `idx % 256`, more-follows,
+    slice `idx`), and `initialSequenceNumber ≤ idx < initialSequenceNumber +
+    actualWindowSize` — or `idx = 0 = initialSequenceNumber`, the first
+    segment, sent alone while nothing is acknowledged.  Hence at any time the
+    segments emitted since the last acknowledgement are at most `window`
+    distinct indexes, all unacknowledged. -/
+theorem window_step {cfg : Cfg} {s : Sap} (hinv : Inv s) (e : Event) (he : EvResp e) :
+    ∀ q f, Out.send q f ∈ (step cfg s e).2 → f.seg = true → (f.ty = 0 ∨ f.ty = 3) →
+      (∃ t ∈ (step cfg s e).1.clients, t.key = ⟨q, f.invokeId⟩ ∧ InWin t.body f) ∨
+      (∃ t ∈ (step cfg s e).1.servers, t.key = ⟨q, f.invokeId⟩ ∧ InWin t.body f) :=
+  fun q f hm hs ht => window_step_sap hinv e he q f hm ⟨hs, ht⟩
+
+/-- … in every state reachable from the initial one by any event sequence -/
+theorem window_run {cfg : Cfg} (hpos : cfg.TimeoutsPos) (es : List Event) (e : Event) (he : EvResp e) :
+    let s := (run cfg Sap.init es).1
+    ∀ q f, Out.send q f ∈ (step cfg s e).2 → f.seg = true → (f.ty = 0 ∨ f.ty = 3) →
+      (∃ t ∈ (step cfg s e).1.clients, t.key = ⟨q, f.invokeId⟩ ∧ InWin t.body f) ∨
+      (∃ t ∈ (step cfg s e).1.servers, t.key = ⟨q, f.invokeId⟩ ∧ InWin t.body f) :=
+  window_step (BacVerif.C11.inv_run hpos es BacVerif.C11.inv_init) e he
+
+/-- non-vacuity of `window_step`: after the first ack (window 2) of a 100-octet
+    request toward a 50-octet peer the step emits segments 1 and 2, and the
+    transaction it leaves behind has window start 1 and window 2 -/
+example :
+    let cfg : Cfg := { BacVerif.Gen.TsmDefaults.cfg with seg := .both, maxSegs := some 16, maxApdu := 50 }
+    let s1 := (step cfg Sap.init (.request 1 200 (List.replicate 100 7) none)).1
+    let r := step cfg s1 (.frame 1 (mkSegAck false true 1 0 2))
+    (r.2.map fun o => match o with | .send _ a => (a.seq, a.mor) | _ => (99, false)) = [(1, true), (2, false)] ∧
+    (r.1.clients.map fun t => (t.body.initSeq, t.body.window)) = [(1, some 2)] := by
+  decide +kernel
 
 /-! ## 3. the receiver appends in order -/
 
